@@ -140,7 +140,7 @@ func c01Action(form int) (*rj.Emit, bool) {
 	return &rj.Emit{E: rj.V("v"), Writer: c01Writers[form/3], WForm: form % 3}, false
 }
 
-const c01NFrames = 12
+const c01NFrames = 14
 
 type c01B struct {
 	n     int
@@ -184,10 +184,16 @@ func (b *c01B) frame(k int, inner []rj.Stmt) []rj.Stmt {
 		fn := fmt.Sprintf("/ex%d.jet", id)
 		b.files = append(b.files, &rj.File{Name: fn, Body: inner})
 		return []rj.Stmt{rj.Let(fmt.Sprintf("r%d", id), &rj.Exec{Name: rj.S(fn)})}
-	default:
+	case 11:
 		fn := fmt.Sprintf("/iie%d.jet", id)
 		b.files = append(b.files, &rj.File{Name: fn, Body: inner})
 		return []rj.Stmt{rj.E(&rj.IncIf{Name: rj.S(fn)})}
+	case 12:
+		// an earlier sibling: a safe writer whose second operand fails, abandoned by a try
+		return append([]rj.Stmt{&rj.Try{Body: []rj.Stmt{&rj.Emit{E: rj.S("<p>"), Writer: c01Writers[id%len(c01Writers)], WForm: 1, More: []rj.Expr{rj.V("undefinedName")}}}}}, inner...)
+	default:
+		// the catch body of a try abandoned inside a safe writer
+		return []rj.Stmt{&rj.Try{Body: []rj.Stmt{&rj.Emit{E: rj.S("<p>"), Writer: c01Writers[id%len(c01Writers)], WForm: 1, More: []rj.Expr{rj.V("undefinedName")}}}, HasCatch: true, Catch: inner}}
 	}
 }
 
@@ -288,7 +294,7 @@ var c01Deep = registerSpace(&e1Space{
 })
 
 func C01(r *core.Run) map[string]interface{} {
-	r.Rule = "context (every sequence of <=2, thorough 3, frames over if/else/range/range-else/block/yield/content/include/try/catch/exec/includeIfExists) x outer shape (plain, root layout of an extends chain, leaf block rendered by the root's yield) x 24 values (each HTML-special byte, combinations, pre-escaped, multi-byte, NUL, specials at the 4096-byte print-chunk borders, int/float/bool/[]byte/Stringer/error/*string/[]string/nil) x 28 action forms ({{v}}, {{v|f}}, {{v|html}}, 5 safe writers in 3 call forms, and in 2 multi-argument forms whose middle argument executes a template using another safe writer) x 4 escapers (default, nil, custom homomorphic, custom bracketing); oracle: byte equality with text ++ E(printed v); distinct = distinct reference outputs"
+	r.Rule = "context (every sequence of <=2, thorough 3, frames over if/else/range/range-else/block/yield/content/include/try/catch/exec/includeIfExists/after-a-try-abandoned-inside-a-safe-writer/catch-of-such-a-try) x outer shape (plain, root layout of an extends chain, leaf block rendered by the root's yield) x 24 values (each HTML-special byte, combinations, pre-escaped, multi-byte, NUL, specials at the 4096-byte print-chunk borders, int/float/bool/[]byte/Stringer/error/*string/[]string/nil) x 28 action forms ({{v}}, {{v|f}}, {{v|html}}, 5 safe writers in 3 call forms, and in 2 multi-argument forms whose middle argument executes a template using another safe writer) x 4 escapers (default, nil, custom homomorphic, custom bracketing); oracle: byte equality with text ++ E(printed v); distinct = distinct reference outputs"
 	runSpace(r, c01Flat)
 	runSpace(r, c01Deep)
 	return map[string]interface{}{"values": len(c01Vals), "forms": c01NForms, "frames": c01NFrames, "traces_validated_against_impl": r.Evals()}
